@@ -1,7 +1,7 @@
 From Coq Require Import ZArith List Bool Lia.
 From Arsenal Require Import Util.
 From Arsenal Require Import Budget BudgetProofs.
-From Arsenal Require VamDev VamBlockList Vam VamInv VamInvThm VamProps VamAcct VamAcctThm.
+From Arsenal Require VamDev VamBlockList Vam VamInv VamInvStep VamInvThm VamProps VamPropsOps VamShapeStep VamAcct VamAcctThm.
 Import ListNotations.
 Open Scope Z_scope.
 (* C11 — Configured limits and allocation-mode flags are always respected.
@@ -47,7 +47,7 @@ Proof. exact ex_in_bdomain. Qed.
    maxMemoryAllocationCount.  OPEN: pool minimum / maximum block counts, NeverAllocate and Dedicated
    exactness (decided by the vamh exploration, limits / pools profiles with the pool-bounds preamble). *)
 Module Allocator.
-Import VamDev VamBlockList Vam VamInv VamInvThm VamProps VamAcct VamAcctThm.
+Import VamDev VamBlockList Vam VamInv VamInvThm VamProps VamPropsOps VamShapeStep VamAcct VamAcctThm.
 
 Theorem C11_allocator_heap_limit_respected : forall c v h,
   cfg_acct c -> reachA c v -> 0 <= h -> 0 < heapLimit (bcfg_of c) h ->
@@ -67,4 +67,48 @@ Print Assumptions C11_allocator_count_limit_respected.
 
 Example C11_allocator_nonvacuous : cfg_acct exA_cfg.
 Proof. exact exA_cfg_acct. Qed.
+
+(* Pool block counts: in every state reachable by API calls (pools created with MinBlockCount >= 0; any fault
+   oracle; also right after failed or refused operations) every block list holds at least its minimum and at
+   most its maximum number of blocks. *)
+Theorem C11_allocator_pool_block_bounds : forall c v lr l,
+  cfg_ok c -> reachL c v -> get_blist v lr = Some l ->
+  bl_min l <= zlen (bl_blocks l) /\ zlen (bl_blocks l) <= bl_max l.
+Proof. intros c v lr l Hc. exact (pool_block_bounds c Hc v lr l). Qed.
+Print Assumptions C11_allocator_pool_block_bounds.
+
+(* NeverAllocate: whatever the state and whatever the outcome, an allocation call carrying the flag issues no
+   vkAllocateMemory (multi_allocate is what AllocateMemory, AllocateMemorySlice, CreateBuffer/Image and
+   AllocateMemoryFor* all run). *)
+Theorem C11_allocator_never_allocate_no_device_call :
+  forall c v size align typeBits reqDed prefDed ded bufimg usage flags0 req pref ctb pool sub slots,
+  fl flags0 F_NEVER = true ->
+  let '(v', _) := multi_allocate c v size align typeBits reqDed prefDed ded bufimg usage flags0 req pref ctb pool sub slots in
+  exists l, m_calls (v_m v') = (l ++ m_calls (v_m v))%list /\ List.Forall not_alloc_call l.
+Proof. exact never_allocate_no_device_call. Qed.
+Print Assumptions C11_allocator_never_allocate_no_device_call.
+
+(* Dedicated: a successful request that carries the Dedicated flag (or whose resource requires a dedicated
+   allocation) yields dedicated allocations of exactly the requested size, each owning a memory object of
+   exactly that size that nothing else lives in. *)
+Theorem C11_allocator_dedicated_exact :
+  forall c v size align typeBits reqDed prefDed ded bufimg usage flags0 req pref ctb pool sub slots v',
+  cfg_ok c -> reach c v -> List.NoDup slots -> VamInvStep.dead_slots v slots ->
+  multi_allocate c v size align typeBits reqDed prefDed ded bufimg usage flags0 req pref ctb pool sub slots = (v', OK tt) ->
+  fl flags0 F_DEDICATED = true \/ reqDed = true \/ usage = 1 ->
+  forall s, List.In s slots -> exists a, slot_is v' s a /\ a_kind a = 2 /\ a_size a = size.
+Proof.
+  intros c v size align typeBits reqDed prefDed ded bufimg usage flags0 req pref ctb pool sub slots v' Hc R.
+  apply dedicated_exact; [exact Hc|apply reach_inv; assumption].
+Qed.
+Print Assumptions C11_allocator_dedicated_exact.
+
+Theorem C11_allocator_dedicated_own_memory : forall c v s a,
+  cfg_ok c -> reach c v -> slot_is v s a -> a_kind a = 2 ->
+  (exists d, find_mem (m_mems (v_m v)) (a_mem a) = Some d /\ dm_size d = a_size a /\ dm_type d = a_type a) /\
+  find_offset v a = Some 0 /\
+  (forall s' a', slot_is v s' a' -> s' <> s -> a_mem a' <> a_mem a) /\
+  (forall lr l b, get_blist v lr = Some l -> List.In b (bl_blocks l) -> bk_mem b <> a_mem a).
+Proof. intros c v s a Hc R. apply (dedicated_own_memory c). apply reach_inv; assumption. Qed.
+Print Assumptions C11_allocator_dedicated_own_memory.
 End Allocator.
